@@ -19,7 +19,7 @@ func init() {
 		LevelText:   "Structural clauses decided for all paths: every operation that can be written to the Raft log has an apply case (and every propagated op a handler); on the functions reachable from Apply/Restore no goroutine writes replicated state, no clock/random/server-local value flows into it and every map iteration is order-insensitive or sorted; the snapshot object holds no pointer to live state; snapshot writer and restore reader agree on the field set and no persisted flag can only ever be set; mutators are guarded by epoch comparisons fed from the Raft index; replayed deletes only tombstone. Equality of end states over all histories and snapshot splits is not decided.",
 		LevelNote:   "Trusted: go/ssa and the CHA call graph; the frozen lists of replicated fields, activation boundary, set-semantics fields and accepted unordered collections in rules/c06.go (one reason each); generated protobuf code.",
 		DesignRef:   "DESIGN.md §4 C06",
-		Explanation: "R06.6 also: every successful return of Restore lies behind the reset. R06.6 also: a snapshot leaves tombstoned streams out (F78) and Restore hands the snapshot's streams to a reset that deletes the others with their data (F88); R06.3 also: no by-value copy of a live object whose reference fields the apply path rewrites in place; R06.4 also: a persisted read-only flag is re-applied unconditionally at load. R06.1 op coverage, R06.2 determinism on the apply path (a goroutines, b nondeterministic sources, c map iteration order), R06.3 snapshot freshness, R06.4 snapshot/restore field agreement and one-sided flags, R06.5 idempotency / epoch stamping, R06.6 replay safety (a created stream is built from the logged op; the tombstone is only ever set), R06.7 lock pairing, R06.8 snapshot restores streams before groups, R07.9 (shared) persisted ISR, R12.5 (shared) group bookkeeping; R06.3 also requires that Persist reads no live state and the snapshot object holds encoded data only; R06.4 that persisted flags with a run-time counterpart are re-applied at load. NOT decided: end-state equality for all histories × snapshot splits; what the commit-log side does on restart.",
+		Explanation: "Rounds 9-10: R06.6 Restore fills its buffers; R06.4 Pause decides on the run-time flag; R07.5 (shared) CREATE_STREAM stamps the epochs and AddStream keeps them; R12.5 (shared) a restored group replays the joins; R16.8 (shared) a StreamConfig copied field by field is complete. R06.6 also: every successful return of Restore lies behind the reset. R06.6 also: a snapshot leaves tombstoned streams out (F78) and Restore hands the snapshot's streams to a reset that deletes the others with their data (F88); R06.3 also: no by-value copy of a live object whose reference fields the apply path rewrites in place; R06.4 also: a persisted read-only flag is re-applied unconditionally at load. R06.1 op coverage, R06.2 determinism on the apply path (a goroutines, b nondeterministic sources, c map iteration order), R06.3 snapshot freshness, R06.4 snapshot/restore field agreement and one-sided flags, R06.5 idempotency / epoch stamping, R06.6 replay safety (a created stream is built from the logged op; the tombstone is only ever set), R06.7 lock pairing, R06.8 snapshot restores streams before groups, R07.9 (shared) persisted ISR, R12.5 (shared) group bookkeeping; R06.3 also requires that Persist reads no live state and the snapshot object holds encoded data only; R06.4 that persisted flags with a run-time counterpart are re-applied at load. NOT decided: end-state equality for all histories × snapshot splits; what the commit-log side does on restart.",
 	})
 }
 
